@@ -359,11 +359,11 @@ def provenance_check(build):
         if int(t[5]) == ep:
             if k not in completed:
                 bad.append(("provenance", "row of key %d is stamped with epoch %d but no task for it completed in that build" % (k, ep)))
-            elif int(t[4]) == ep and completed[k] != t[2]:
+            elif completed[k] != t[2]:
                 bad.append(("provenance", "row of key %d holds %s, its task completed with %s" % (k, t[2], completed[k])))
             deps = [int(x.split(":")[0]) if not x.startswith("?") else -1 for x in t[6:]]
-            if k in build["deps"] and build["deps"][k] != deps:
-                bad.append(("provenance", "row of key %d stores dependencies %s, the engine recorded %s for that execution" % (k, deps, build["deps"][k])))
+            if build["deps"].get(k, []) != deps:
+                bad.append(("provenance", "row of key %d stores dependencies %s, the engine recorded %s for that execution" % (k, deps, build["deps"].get(k, []))))
     for k in completed:
         if k not in stored or int(stored[k][5]) != ep:
             bad.append(("provenance", "task %d completed in the build of epoch %s but its row is missing or carries another epoch" % (k, ep)))
@@ -494,15 +494,27 @@ class Target:
 
     # -- which kill points
     def boundaries(self):
-        """N values around every change of (syscall, file) in the reference call log, plus first and last"""
-        pts = set([1, 2, self.total, self.total + 1])
+        """N values in order of interest: first/last, around the removal of the journal (the commit point), around the sync
+        calls and the first database write of each transaction, then around every other change of (syscall, file)"""
+        first = [1, self.total, self.total + 1]
+        commit, syncs, other = [], [], []
         prev = None
         for c in self.calls:
             n, sig = int(c[0]), (c[1], c[2])
-            if sig != prev:
-                pts.update([n - 1, n, n + 1])
+            if c[2] == "journal" and c[1] in ("unlink", "unlinkat", "ftruncate", "rename"):
+                commit += [n, n + 1, n - 1]
+            elif sig != prev and (c[1] in ("fsync", "fdatasync") or (c[2] == "db" and c[1] in ("pwrite", "write"))):
+                syncs += [n, n + 1]
+            elif sig != prev:
+                other += [n, n - 1]
+            if c[2] == "db" and c[1] in ("pwrite", "write") and prev == sig:
+                other.append(n)             # inside a multi-page commit
             prev = sig
-        return sorted(p for p in pts if 1 <= p <= self.total + 1)
+        out = []
+        for p in first + commit + syncs + other:
+            if 1 <= p <= self.total + 1 and p not in out:
+                out.append(p)
+        return out
 
     def call_desc(self, n):
         if 1 <= n <= len(self.calls):
@@ -530,6 +542,7 @@ class Target:
             chk.violation("driver-crash", "engine_driver failed without a kill (rc %d)" % rc, dict(rp, stderr=err[-800:]))
             return None
         journal_left = os.path.exists(os.path.join(d, "build.db-journal"))
+        self.journal_left = journal_left
         # (i)+(ii) independent read of a copy (so that the engine below meets the hot journal itself)
         pyd = os.path.join(d, "py")
         copy_db(d, pyd)
@@ -689,7 +702,7 @@ def run(chk):
             b = t.boundaries()
             rest = [n for n in allN if n not in set(b)]
             rng.shuffle(rest)
-            pick = sorted(set(b[:share] + rest[:max(0, share - len(b))]))
+            pick = sorted(set(b[:share - 2] + rest[:max(2, share - len(b))]))
         else:
             pick = allN
         crng = __import__("random").Random(rng.getrandbits(32))
@@ -698,7 +711,7 @@ def run(chk):
             stats["kill_points"] += 1
             if v in ("pre", "post", "other"):
                 stats[v] += 1
-            if os.path.exists(os.path.join(t.d, "py", "build.db-journal")):
+            if getattr(t, "journal_left", False):
                 stats["journal_left_behind"] += 1
         if t.commit_at is None:
             chk.violation("db-never-committed", "no kill point of %s (not even process exit) shows the post-build state" % t.name, t.replay_base())
